@@ -34,6 +34,8 @@ import json
 import multiprocessing as mp
 import os
 import random
+import resource
+import signal
 import sys
 import traceback
 from collections import Counter, defaultdict
@@ -240,6 +242,9 @@ def indel_one(rec, ctors, fails, stats, samples):
             try:
                 rp = M.im_repr(r)
                 dk = _deep_ok_key(r)
+            except M.AbsurdLength as ex:
+                outcomes[(ctor, style)] = [("result-absurd-length", {"exception": repr(ex)})]
+                continue
             except Exception as ex:  # the returned object cannot even be read
                 outcomes[(ctor, style)] = [(f"result-unreadable={type(ex).__name__}", {"exception": repr(ex), "traceback": traceback.format_exc()[-1200:]})]
                 continue
@@ -286,15 +291,74 @@ def _indel_job(job):
     lo, hi = job
     fails, stats, samples = Fails(), Counter(), []
     for ln in _G["lines"][lo:hi]:
-        indel_one(parse(ln), _G["ctors"], fails, stats, samples)
+        rec = parse(ln)
+        guarded_case(lambda: indel_one(rec, _G["ctors"], fails, stats, samples), (f"IndelMap:{rec['act']}", rec), fails, stats)
     return fails, stats, samples
 
 
-def run_pool(fn, njobs_items, chunk):
+CASE_SECONDS = 10  # wall-clock limit of one replayed case (they take < 1 ms)
+TASK_SECONDS = int(os.environ.get("VERIF_C08_TASK_SECONDS", "420"))  # ... of one worker task (chunk)
+WORKER_MEM = 6 << 30
+
+
+def _on_alarm(signum, frame):
+    raise M.CaseTimeout(f"case exceeded {CASE_SECONDS}s")
+
+
+class time_limit:
+    """with time_limit(): one case; raises CaseTimeout inside the worker when it takes too long."""
+
+    def __enter__(self):
+        signal.setitimer(signal.ITIMER_REAL, CASE_SECONDS)
+
+    def __exit__(self, *exc):
+        signal.setitimer(signal.ITIMER_REAL, 0)
+        return False
+
+
+def _worker_limits():
+    signal.signal(signal.SIGALRM, _on_alarm)
+    try:  # a runaway allocation becomes a MemoryError in that case, not a swapped-out machine
+        resource.setrlimit(resource.RLIMIT_AS, (WORKER_MEM, WORKER_MEM))
+    except (ValueError, OSError):
+        pass
+
+
+def guarded_case(fn, label, fails, stats):
+    """Run one case; a hang or runaway allocation inside the implementation is a finding of that case."""
+    try:
+        with time_limit():
+            fn()
+    except M.CaseTimeout as ex:
+        stats["case_timeouts"] += 1
+        fails.add(f"{label[0]}:timeout", {"case": label[1], "exception": repr(ex)})
+    except MemoryError as ex:
+        stats["case_out_of_memory"] += 1
+        fails.add(f"{label[0]}:out-of-memory", {"case": label[1], "exception": repr(ex)})
+    except RecursionError as ex:
+        fails.add(f"{label[0]}:exception=RecursionError", {"case": label[1], "exception": repr(ex)})
+
+
+def run_pool(fn, njobs_items, chunk, phase="replay"):
+    """imap over chunks; a worker task that does not come back within TASK_SECONDS (or a worker that
+    died) is reported as a finding and the pool is torn down: the check always ends with a verdict."""
     jobs = [(i, min(i + chunk, njobs_items)) for i in range(0, njobs_items, chunk)]
     ctx = mp.get_context("fork")
-    with ctx.Pool(NPROC) as pool:
-        yield from pool.imap_unordered(fn, jobs)
+    pool = ctx.Pool(NPROC, initializer=_worker_limits)
+    try:
+        it = pool.imap_unordered(fn, jobs)
+        for _ in jobs:
+            try:
+                yield it.next(timeout=TASK_SECONDS)
+            except mp.TimeoutError:
+                f = Fails()
+                f.add(f"{phase}:worker-task-timeout", {"what": f"a worker task of the {phase} phase did not finish within {TASK_SECONDS}s; remaining tasks abandoned"})
+                yield f, Counter(abandoned_tasks=1), []
+                break
+        pool.terminate()
+    finally:
+        pool.terminate()
+        pool.join()
 
 
 def indel_phase(run: Run, scratch):
@@ -323,7 +387,7 @@ def indel_phase(run: Run, scratch):
     op_ctors = ctors  # the same in both tiers so that finding keys do not depend on the tier
     _G.update(bad=bad, ctors=op_ctors)
     total, allfails = Counter(), Fails()
-    for fails, stats, samples in run_pool(_indel_job, len(rest), 400):
+    for fails, stats, samples in run_pool(_indel_job, len(rest), 400, "IndelMap"):
         total.update(stats)
         for k, (n, d) in fails.d.items():
             for _ in range(n):
@@ -441,6 +505,7 @@ def history_one(gkey, fails, stats, samples):
             act, args = rec["act"], rec["args"]
             style = rnd.randrange(M.IM_STYLES.get(act, 1))
             broken = False
+            signal.setitimer(signal.ITIMER_REAL, CASE_SECONDS)  # a hanging call is a finding of this step
             try:
                 kind_r, r = M.im_call(obj, act, args, build, style)
                 if kind_r == "val":
@@ -455,6 +520,7 @@ def history_one(gkey, fails, stats, samples):
             except Exception as ex:
                 report(f"exception={type(ex).__name__}", rec, {"exception": repr(ex), "traceback": traceback.format_exc()[-1200:]})
                 broken = True
+            signal.setitimer(signal.ITIMER_REAL, 0)
             done.append([act, args])
             df, robs = M.receiver_diff(obj, exp_g)
             if df:
@@ -481,7 +547,10 @@ def _history_job(job):
     lo, hi = job
     fails, stats, samples = Fails(), Counter(), []
     for gkey in _G["hist_keys"][lo:hi]:
-        history_one(gkey, fails, stats, samples)
+        try:
+            history_one(gkey, fails, stats, samples)
+        except (M.CaseTimeout, MemoryError) as ex:  # outside a guarded step
+            fails.add(f"IndelMap:History:{'timeout' if isinstance(ex, M.CaseTimeout) else 'out-of-memory'}", {"receiver": gkey, "exception": repr(ex)})
     return fails, stats, samples
 
 
@@ -499,7 +568,7 @@ def history_phase(run: Run):
     random.Random(run.seed).shuffle(keys)
     _G.update(by_from=by_from, by_to=by_to, hist_keys=keys, seed=run.seed, hist_cap=150 if run.tier == "quick" else 200)
     total, allfails = Counter(), Fails()
-    for fails, stats, samples in run_pool(_history_job, len(keys), 4):
+    for fails, stats, samples in run_pool(_history_job, len(keys), 4, "IndelMap:History"):
         total.update(stats)
         for k, (n, d) in fails.d.items():
             for _ in range(n):
@@ -563,6 +632,9 @@ def fm_execute(mdef, act, args, allowed, fails, stats, samples):
             continue
         try:
             val, outside = M.fm_project(r, act)
+        except M.AbsurdLength as ex:
+            outcomes[(ctor, 0)] = ("result-absurd-length", {"exception": repr(ex), "observed_repr": repr(r)[:300]})
+            continue
         except Exception as ex:
             outcomes[(ctor, 0)] = (f"result-unreadable={type(ex).__name__}", {"exception": repr(ex), "traceback": traceback.format_exc()[-1200:]})
             continue
@@ -605,9 +677,10 @@ def _fm_job(job):
     for item in _G["fm_items"][lo:hi]:
         if isinstance(item, str):
             r = parse(item)
-            fm_execute(r["from"], r["act"], r["args"], [r["to"]], fails, stats, samples)
+            case = (r["from"], r["act"], r["args"], [r["to"]])
         else:
-            fm_execute(*item, fails, stats, samples)
+            case = item
+        guarded_case(lambda: fm_execute(*case, fails, stats, samples), (f"FeatureMap:{case[1]}", list(case[:3])), fails, stats)
     return fails, stats, samples
 
 
@@ -640,7 +713,7 @@ def feature_phase(run: Run, scratch, cfg):
     random.Random(run.seed).shuffle(items)
     _G.update(fm_items=items)
     total, allfails = Counter(), Fails()
-    for fails, stats, samples in run_pool(_fm_job, len(items), 400):
+    for fails, stats, samples in run_pool(_fm_job, len(items), 400, "FeatureMap"):
         total.update(stats)
         for k, (n, d) in fails.d.items():
             for _ in range(n):
@@ -681,11 +754,14 @@ def check(run: Run):
         t1 = time.time()
         for cfg in ["MC_FeatureMap_quick.cfg"] if run.tier == "quick" else ["MC_FeatureMap_thorough.cfg", "MC_FeatureMap_thorough2.cfg"]:
             feature_phase(run, scratch, cfg)
+        import use_C08
+
+        use_C08.use_phase(run, scratch, sys.modules[__name__])
         t2 = time.time()
         import trace_C08
 
         trace_C08.validate(run, scratch)
-        run.note("phase_wall_s", {"indelmap": round(t1 - t0, 1), "featuremap": round(t2 - t1, 1), "trace": round(time.time() - t2, 1)})
+        run.note("phase_wall_s", {"indelmap": round(t1 - t0, 1), "featuremap_and_use": round(t2 - t1, 1), "trace": round(time.time() - t2, 1)})
     run.cov["rule"] = (
         "IndelMap: every gapped string over {gap,residue} of length <= MaxLen x every operation instance TLC enumerates "
         "(all slice bounds -len..len, all operand strings, all segment lists), each executed with every public constructor "
